@@ -977,13 +977,14 @@ func (f c04Late) Invoke(a []interface{}) ([]reflect.Value, error) {
 }
 
 type flameInjCase struct {
-	App      []injReg `json:"app"`                                 // Flame.Map*/Set
-	Req      []injReg `json:"request"`                             // Context.Map*/Set in the first handler of request 1
-	Params   []string `json:"params"`                              // parameters of the later handler
-	Wrapping string   `json:"wrapping"`                            // plain | context | http | handlerfunc | teapot | logger
-	Logger   bool     `json:"logger_re_registered,omitempty"`      // the application re-registers *log.Logger (a type the framework maps itself): handlers must receive the later registration
-	Late     bool     `json:"late_reading_fast_invoker,omitempty"` // a user-defined FastInvoker early in the chain calls Next() and reads its arguments afterwards
-	Remap    bool     `json:"context_remapped,omitempty"`          // an earlier handler re-registers the Context type in the request scope (a decorating wrapper); later handlers must receive the wrapper
+	App      []injReg `json:"app"`                                         // Flame.Map*/Set
+	Req      []injReg `json:"request"`                                     // Context.Map*/Set in the first handler of request 1
+	Params   []string `json:"params"`                                      // parameters of the later handler
+	Wrapping string   `json:"wrapping"`                                    // plain | context | http | handlerfunc | teapot | logger
+	Logger   bool     `json:"logger_re_registered,omitempty"`              // the application re-registers *log.Logger (a type the framework maps itself): handlers must receive the later registration
+	Late     bool     `json:"late_reading_fast_invoker,omitempty"`         // a user-defined FastInvoker early in the chain calls Next() and reads its arguments afterwards
+	ReqLog   bool     `json:"request_scoped_logger_mapped_late,omitempty"` // the built-in request logger (a LoggerInvoker) runs first; at the end of the chain a handler maps a request-scoped *log.Logger (the request-id pattern) and the handlers after it - a LoggerInvoker and a plain function - must receive that one
+	Remap    bool     `json:"context_remapped,omitempty"`                  // an earlier handler re-registers the Context type in the request scope (a decorating wrapper); later handlers must receive the wrapper
 }
 
 // c04CtxWrap decorates the request's Context.
@@ -991,6 +992,7 @@ type c04CtxWrap struct{ flamego.Context }
 
 func genFlameInjCase(rng *rand.Rand) *flameInjCase {
 	c := &flameInjCase{Wrapping: []string{"plain", "plain", "plain", "context", "http", "handlerfunc", "teapot", "logger"}[rng.Intn(8)], Remap: rng.Intn(3) == 0, Logger: rng.Intn(4) == 0, Late: rng.Intn(3) == 0}
+	c.ReqLog = rng.Intn(3) == 0
 	n := 0
 	gen := func() injReg {
 		key := c04Tys[rng.Intn(len(c04Tys))]
@@ -1155,6 +1157,23 @@ func judgeFlameInj(w *core.W, c *flameInjCase) {
 		w.Count("late-reading-fast-invoker")
 	}
 	hs = append(hs, twoLoggers, wrapped, loggerSeen, later)
+	if c.ReqLog {
+		f.Use(flamego.Logger())
+		var reqL *log.Logger
+		hs = append(hs,
+			func(ctx flamego.Context, l *log.Logger) { reqL = l.With("rid", "r-1"); ctx.Map(reqL) },
+			flamego.LoggerInvoker(func(_ flamego.Context, l *log.Logger) {
+				if l != reqL {
+					svcOK = "a LoggerInvoker that runs after a request-scoped *log.Logger was mapped did not receive it (the request scope is nearer than the application's)"
+				}
+			}),
+			func(l *log.Logger) {
+				if l != reqL {
+					svcOK = "a handler that runs after a request-scoped *log.Logger was mapped did not receive it"
+				}
+			})
+		w.Count("request-scoped-logger-mapped-late")
+	}
 	f.Get("/i", hs...)
 
 	serve := func(withMap bool) (pan interface{}) {
